@@ -105,7 +105,7 @@ StructCode(shs) == LET RECURSIVE C(_)
 FlowCase(f, nsi, shs, sc) ==
     [id |-> ((f * 8 + nsi) * 2400 + StructCode(shs)) * 67 + ScriptCode(sc),
      fam |-> "flow", reqs |-> Flows[f],
-     scens |-> << [name |-> "s1", weight |-> 1, items |-> ItemsOf(NameSeqs[nsi], shs)] >>,
+     scens |-> << [name |-> "s1", weight |-> 1, mwt |-> 0, items |-> ItemsOf(NameSeqs[nsi], shs)] >>,
      gun |-> "http", tmpl |-> "text", special |-> FALSE, rows |-> 3, idx |-> 7, shots |-> 2, script |-> sc]
 
 \* initial states: every flow profile x name sequence x shapes x script (enumerated lazily by TLC)
@@ -120,7 +120,7 @@ FlowInit(lvl) ==
 Weights == {1, 2, 3, 4, 6}
 WCode(w) == IF w = 6 THEN 5 ELSE w
 PlainReqs == Flows[1]
-RingScens(ws) == [j \in 1..Len(ws) |-> [name |-> <<"s1", "s2", "s3">>[j], weight |-> ws[j],
+RingScens(ws) == [j \in 1..Len(ws) |-> [name |-> <<"s1", "s2", "s3">>[j], weight |-> ws[j], mwt |-> 0,
                                          items |-> <<ReqItem(<<"a", "b", "c">>[j], 1, 0)>>]]
 RingLen(ws) == Len(RingOf(RingScens(ws)))
 WsCode(ws) == LET RECURSIVE C(_)
@@ -131,8 +131,8 @@ RingCase(ws) == [id |-> 20000000 + WsCode(ws), fam |-> "ring", reqs |-> PlainReq
 RingInit == \E n \in 1..3 : \E ws \in [1..n -> Weights] : st = InitSt(RingCase(ws))
 
 \* a request listed by two scenarios: its preprocessor keeps the iterator of the LAST scenario listing it
-IterScens(w1, w2) == << [name |-> "s1", weight |-> w1, items |-> <<ReqItem("a", 1, 0), ReqItem("b", 2, 0)>>],
-                        [name |-> "s2", weight |-> w2, items |-> <<ReqItem("a", 2, 0)>>] >>
+IterScens(w1, w2) == << [name |-> "s1", weight |-> w1, mwt |-> 0, items |-> <<ReqItem("a", 1, 0), ReqItem("b", 2, 0)>>],
+                        [name |-> "s2", weight |-> w2, mwt |-> 0, items |-> <<ReqItem("a", 2, 0)>>] >>
 IterCase(w1, w2) ==
     [id |-> 20100000 + (w1 * 10 + w2), fam |-> "iter",
      reqs |-> [a |-> RDef(PreM("next", "users"), Use("pre", "a", "uri"), "none", FALSE),
@@ -148,13 +148,13 @@ NextCase(rows, shots) ==
      reqs |-> [a |-> RDef(PreM("next", "users"), Use("pre", "a", "uri"), "none", FALSE),
                b |-> RDef(PreM("next", "items"), Use("pre", "b", "hdr"), "none", FALSE),
                c |-> RDef(PreM("next", "users"), Use("pre", "c", "body"), "none", FALSE)],
-     scens |-> << [name |-> "s1", weight |-> 1, items |-> <<ReqItem("a", 2, 0), ReqItem("b", 1, 0), ReqItem("c", 1, 0)>>] >>,
+     scens |-> << [name |-> "s1", weight |-> 1, mwt |-> 0, items |-> <<ReqItem("a", 2, 0), ReqItem("b", 1, 0), ReqItem("c", 1, 0)>>] >>,
      gun |-> "http", tmpl |-> "text", special |-> FALSE, rows |-> rows, idx |-> 7, shots |-> shots, script |-> Script("ok", 0)]
 SmallNextCase(shots) == [NextCase(2, shots) EXCEPT !.id = 20300000 + shots,
-                            !.scens = << [name |-> "s1", weight |-> 1, items |-> <<ReqItem("a", 1, 0), ReqItem("c", 2, 0)>>] >>]
+                            !.scens = << [name |-> "s1", weight |-> 1, mwt |-> 0, items |-> <<ReqItem("a", 1, 0), ReqItem("c", 2, 0)>>] >>]
 NextInit == \E n \in 1..3 : st = InitSt(SmallNextCase(n))
 \* the order of log and samples does not influence the future: explore one representative per length
-NextView == [st EXCEPT !.log = Len(st.log), !.samples = Len(st.samples)]
+NextView == [st EXCEPT !.log = Len(st.log), !.samples = Len(st.samples), !.durs = Len(st.durs)]
 NextBigInit == \E rows \in {1, 2, 3, 5}, shots \in {7, 12} : st = InitSt(NextCase(rows, shots))
 
 \* FIRST-access contention (M1): 8 instances, one shot each; in front of every step's real preprocessor the harness puts a
@@ -165,7 +165,7 @@ FirstCase(rows) ==
      reqs |-> [a |-> RDef(PreM("next", "users"), Use("pre", "a", "uri"), "none", FALSE),
                b |-> RDef(PreM("next", "items"), Use("pre", "b", "hdr"), "none", FALSE),
                c |-> RDef(NoPre, NoUse, "none", FALSE)],
-     scens |-> << [name |-> "s1", weight |-> 1, items |-> <<ReqItem("a", 1, 0), ReqItem("b", 1, 0)>>] >>,
+     scens |-> << [name |-> "s1", weight |-> 1, mwt |-> 0, items |-> <<ReqItem("a", 1, 0), ReqItem("b", 1, 0)>>] >>,
      gun |-> "http", tmpl |-> "text", special |-> FALSE, rows |-> rows, idx |-> 7, shots |-> 8, script |-> Script("ok", 0)]
 FirstInit == \E rows \in {2, 3, 5} : st = InitSt(FirstCase(rows))
 
@@ -228,14 +228,106 @@ MFailCase(par) ==
      reqs |-> [a |-> RDef(PreM("next", "users"), Use("pre", "a", "uri"), "none", TRUE),
                b |-> RDef(NoPre, Use("pre", "a", "hdr"), "none", FALSE),
                c |-> RDef(NoPre, NoUse, "none", FALSE)],
-     scens |-> << [name |-> "s1", weight |-> 1, items |-> <<ReqItem("a", 1, 0), ReqItem("b", 1, 0)>>] >>,
+     scens |-> << [name |-> "s1", weight |-> 1, mwt |-> 0, items |-> <<ReqItem("a", 1, 0), ReqItem("b", 1, 0)>>] >>,
      gun |-> "http", tmpl |-> "text", special |-> FALSE, rows |-> 16, idx |-> 7, shots |-> 8, script |-> Script("rowmod", par)]
 MFailInit == \E par \in {0, 1} : st = InitSt(MFailCase(par))
 
+-----------------------------------------------------------------------------
+(* nested sources, several indexed paths per scenario, every index kind                                                 *)
+(* The lists buyers / sellers (nested file/json source) and users (file/csv) all END in the segment `users[..]`, vlist / *)
+(* glist (variables source) in `list[..]`; the lists have different lengths (rows+1, rows, rows, 2, 3).                  *)
+SrcFlows == <<
+  \* 1 three [next] look-ups whose last segment is the same text, in one scenario
+  [a |-> RDef(PreM("next", "buyers"), Use("pre", "a", "uri"), "none", FALSE),
+   b |-> RDef(PreM("next", "sellers"), Use("pre", "b", "hdr"), "none", TRUE),
+   c |-> RDef(PreM("next", "users"), Use("pre", "c", "body"), "none", FALSE)],
+  \* 2 lists of strings of a variables source (top level and nested), [next] and [last]
+  [a |-> RDef(PreM("next", "vlist"), Use("pre", "a", "hdr"), "none", FALSE),
+   b |-> RDef(PreM("next", "glist"), Use("pre", "b", "body"), "none", FALSE),
+   c |-> RDef(PreM("last", "glist"), Use("pre", "c", "uri"), "none", FALSE)],
+  \* 3 [rand] (any row of the list) and an integer index (negative / beyond the end: modulo the length)
+  [a |-> RDef(PreM("rand", "buyers"), Use("pre", "a", "uri"), "none", FALSE),
+   b |-> RDef(PreM("rand", "vlist"), Use("pre", "b", "hdr"), "none", FALSE),
+   c |-> RDef(PreM("idx", "sellers"), Use("pre", "c", "body"), "none", FALSE)],
+  \* 4 integer index and [last] on every kind of source
+  [a |-> RDef(PreM("idx", "glist"), Use("pre", "a", "uri"), "none", FALSE),
+   b |-> RDef(PreM("last", "buyers"), Use("pre", "b", "hdr"), "none", FALSE),
+   c |-> RDef(PreM("idx", "users"), Use("pre", "c", "body"), "none", FALSE)],
+  \* 5 [next] on the nested lists, a later step renders an earlier step's row; one step on [rand] of the csv source
+  [a |-> RDef(PreM("next", "sellers"), Use("pre", "a", "hdr"), "json", FALSE),
+   b |-> RDef(PreM("next", "buyers"), Use("pre", "a", "body"), "none", FALSE),
+   c |-> RDef(PreM("rand", "items"), Use("pre", "c", "uri"), "none", FALSE)]
+>>
+SrcIdx == {-1, -4, 0, 5, 7}
+IdxCode(x) == x + 4
+SrcCase(f, nsi, rows, idx) ==
+    [FlowCase(f, nsi, OneShape(Len(NameSeqs[nsi])), Script("ok", 0)) EXCEPT
+        !.id = 23000000 + ((f * 8 + nsi) * 8 + rows) * 12 + IdxCode(idx),
+        !.fam = "src", !.reqs = SrcFlows[f], !.rows = rows, !.idx = idx, !.shots = 4]
+SrcInit == \E f \in 1..Len(SrcFlows), nsi \in {2, 4, 5, 6, 7}, rows \in {2, 3} :
+             \E idx \in (IF f \in {3, 4} THEN SrcIdx ELSE {7}) : st = InitSt(SrcCase(f, nsi, rows, idx))
+\* design level, two instances under every interleaving: per-path counters
+SrcSmallCase(n) == [SrcCase(1, 5, 2, 7) EXCEPT !.id = 23900000 + n, !.shots = n]
+SrcSmallInit == \E n \in 1..2 : st = InitSt(SrcSmallCase(n))
+
+\* several scenarios on the same sources (every scenario has its own iterator: each starts at row 0 of every list)
+ShareScens(w1, w2) == << [name |-> "s1", weight |-> w1, mwt |-> 0, items |-> <<ReqItem("a", 1, 0), ReqItem("b", 1, 0)>>],
+                         [name |-> "s2", weight |-> w2, mwt |-> 0, items |-> <<ReqItem("c", 2, 0)>>] >>
+ShareCase(w1, w2, rows) ==
+    [id |-> 23800000 + (w1 * 10 + w2) * 10 + rows, fam |-> "share",
+     reqs |-> [a |-> RDef(PreM("next", "buyers"), Use("pre", "a", "uri"), "none", FALSE),
+               b |-> RDef(PreM("next", "sellers"), Use("pre", "b", "hdr"), "none", FALSE),
+               c |-> RDef(PreM("next", "buyers"), Use("pre", "c", "body"), "none", FALSE)],
+     scens |-> ShareScens(w1, w2),
+     gun |-> "http", tmpl |-> "text", special |-> FALSE, rows |-> rows, idx |-> 7,
+     shots |-> 2 * Len(RingOf(ShareScens(w1, w2))), script |-> Script("ok", 0)]
+ShareInit == \E w1 \in {1, 2}, w2 \in {1, 3}, rows \in {2, 3} : st = InitSt(ShareCase(w1, w2, rows))
+
+\* several instances on nested lists (M1, run with 4 instances)
+NextCase2(rows, shots) ==
+    [NextCase(rows, shots) EXCEPT !.id = 20250000 + rows * 100 + shots,
+        !.reqs = [a |-> RDef(PreM("next", "buyers"), Use("pre", "a", "uri"), "none", FALSE),
+                  b |-> RDef(PreM("next", "sellers"), Use("pre", "b", "hdr"), "none", FALSE),
+                  c |-> RDef(PreM("next", "glist"), Use("pre", "c", "body"), "none", FALSE)]]
+NextBig2Init == \E rows \in {2, 3}, shots \in {7, 12} : st = InitSt(NextCase2(rows, shots))
+
+-----------------------------------------------------------------------------
+(* min_waiting_time ("the minimum scenario execution time") and pauses as LOWER bounds on the duration of a shot;        *)
+(* a scenario whose request list is empty                                                                                *)
+MwtItems == << <<ReqItem("a", 1, 0)>>,
+               <<ReqItem("a", 2, 3), SleepItem(4)>>,
+               <<ReqItem("a", 1, 30), ReqItem("b", 1, 0)>>,      \* the pauses alone exceed min_waiting_time
+               <<ReqItem("a", 1, 5), ReqItem("b", 1, 0), ReqItem("a", 1, 0)>>,
+               <<>> >>                                           \* no requests at all
+MwtScripts == {Script("ok", 0), Script("status", 1), Script("transport", 1), Script("status", 2)}
+MwtCase(k, mwt, sc, gun) ==
+    [id |-> 24000000 + ((k * 100 + mwt) * 2 + (IF gun = "grpc" THEN 1 ELSE 0)) * 67 + ScriptCode(sc), fam |-> "mwt",
+     reqs |-> IF gun = "grpc" THEN GFlows[1] ELSE Flows[1],
+     scens |-> << [name |-> "s1", weight |-> 1, mwt |-> mwt, items |-> MwtItems[k]] >>,
+     gun |-> gun, tmpl |-> "text", special |-> FALSE, rows |-> 3, idx |-> 7, shots |-> 3, script |-> sc]
+MwtInit == \E k \in 1..Len(MwtItems), mwt \in {0, 25}, gun \in {"http", "grpc"} :
+             \E sc \in (IF MwtItems[k] = <<>> THEN {Script("ok", 0)} ELSE MwtScripts) :
+                (sc.kind = "transport" => gun = "http") /\ st = InitSt(MwtCase(k, mwt, sc, gun))
+\* two scenarios with their own min_waiting_time, one of them without requests
+Mwt2Case(m1, m2) ==
+    [id |-> 24900000 + m1 * 100 + m2, fam |-> "mwt",
+     reqs |-> Flows[1],
+     scens |-> << [name |-> "s1", weight |-> 1, mwt |-> m1, items |-> <<>>],
+                  [name |-> "s2", weight |-> 2, mwt |-> m2, items |-> <<ReqItem("b", 1, 2)>>] >>,
+     gun |-> "http", tmpl |-> "text", special |-> FALSE, rows |-> 3, idx |-> 7, shots |-> 6, script |-> Script("ok", 0)]
+Mwt2Init == \E m1 \in {0, 20}, m2 \in {0, 15} : st = InitSt(Mwt2Case(m1, m2))
+
+\* weights with a large common divisor (the ring holds weight / gcd copies)
+BigWeights == << <<12, 18>>, <<100, 150, 250>>, <<1000000, 1000000>>, <<96, 64>>, <<7, 7, 7>>, <<65536, 32768, 98304>>,
+                 <<999999, 333333>>, <<0, 0, 0>> >>
+BigRingCase(k) == [RingCase(BigWeights[k]) EXCEPT !.id = 20600000 + k]
+BigRingInit == \E k \in 1..Len(BigWeights) : st = InitSt(BigRingCase(k))
+
 GrpcSmallInit == \E f \in {1, 3}, nsi \in {2, 5} : \E sc \in GScripts(Len(NameSeqs[nsi]), 1) :
                     st = InitSt(GrpcCase(f, nsi, OneShape(Len(NameSeqs[nsi])), sc))
-InitQuick == FlowInit(0) \/ RingInit \/ IterInit \/ NextBigInit \/ FirstInit \/ TmplInit \/ GrpcInit(0) \/ MFailInit
-InitThorough == FlowInit(1) \/ RingInit \/ IterInit \/ NextBigInit \/ FirstInit \/ TmplInit \/ GrpcInit(1) \/ MFailInit
+Growth == SrcInit \/ ShareInit \/ NextBig2Init \/ MwtInit \/ Mwt2Init \/ BigRingInit
+InitQuick == FlowInit(0) \/ RingInit \/ IterInit \/ NextBigInit \/ FirstInit \/ TmplInit \/ GrpcInit(0) \/ MFailInit \/ Growth
+InitThorough == FlowInit(1) \/ RingInit \/ IterInit \/ NextBigInit \/ FirstInit \/ TmplInit \/ GrpcInit(1) \/ MFailInit \/ Growth
 InitFull  == FlowInit(2) \/ RingInit \/ IterInit
 InitSmall == (\E nsi \in {2, 6} : \E shs \in [1..Len(NameSeqs[nsi]) -> {Shape(1, 0, 0), Shape(2, 3, 4)}] :
                 \E f \in {1, 3} : \E sc \in ScriptsFor(StepsOf(shs)) : st = InitSt(FlowCase(f, nsi, shs, sc)))
@@ -243,8 +335,14 @@ InitSmall == (\E nsi \in {2, 6} : \E shs \in [1..Len(NameSeqs[nsi]) -> {Shape(1,
 
 \* M2: export the selected cases for the replay through the real code
 GMod == IF "VERIF_GMOD" \in DOMAIN IOEnv THEN atoi(IOEnv.VERIF_GMOD) ELSE 1
-Selected(c) == CASE c.fam = "flow" -> (c.id % Mod) = (Sd % Mod)
-                 [] c.fam = "grpc" -> (c.id % GMod) = (Sd % GMod)
+SMod == IF "VERIF_SMOD" \in DOMAIN IOEnv THEN atoi(IOEnv.VERIF_SMOD) ELSE 1
+RMod == IF "VERIF_RMOD" \in DOMAIN IOEnv THEN atoi(IOEnv.VERIF_RMOD) ELSE 1
+\* (ids are <structure> * 67 + <script>: both parts are mixed so that every residue class is a fair sample)
+Mix(id) == (id \div 67) * 5 + (id % 67)
+Selected(c) == CASE c.fam = "flow" -> (Mix(c.id) % Mod) = (Sd % Mod)
+                 [] c.fam = "grpc" -> (Mix(c.id) % GMod) = (Sd % GMod)
+                 [] c.fam = "src"  -> (c.id % SMod) = (Sd % SMod)
+                 [] c.fam = "ring" -> c.id >= 20600000 \/ (c.id % RMod) = (Sd % RMod)     \* (the big-weight rings always)
                  [] OTHER -> TRUE
 Export == (Done(st) /\ Selected(st.cs)) => PrintT(<<"VERIF", ToJson(st.cs)>>)
 
